@@ -25,6 +25,8 @@ URI_PREFIXES = [
     "h://e/", "h://e/a", "h://E/", "h://e/a_",
     "é", "é/", "\U0001d11e", "\U0001d11e/", "e\u0301",
     "a:", "go:", "GO:", "w|", "w|q::",
+    # realistically long ones (longer than any plausible fixed-width head / bucket)
+    "http:", "http://x.org/", "http://x.org/a", "http://x.org/a/b_", "http://y.org/", "https://x.org/",
 ]
 RARE_URI_PREFIXES = ["", "u"]
 
